@@ -4,23 +4,6 @@ import YtkProofs.Dom
 
 namespace Ytk
 
-theorem Node.Valid.leaf (v : Scalar) : (Node.leaf v).Valid := ⟨.leaf v, .leaf v⟩
-
-theorem Node.Valid.of_list_mem {xs : List Node} (h : (Node.list xs).Valid) {x : Node} (hx : x ∈ xs) : x.Valid := by
-  obtain ⟨hw, hk⟩ := h
-  cases hw with
-  | list hw => cases hk with
-    | list hk => exact ⟨hw x hx, hk x hx⟩
-
-theorem Node.Valid.of_cont_mem {kvs : List (String × Node)} (h : (Node.cont kvs).Valid) {p : String × Node}
-    (hp : p ∈ kvs) : p.2.Valid ∧ hasIdxSuffix p.1 = false := by
-  obtain ⟨hw, hk⟩ := h
-  cases hw with
-  | cont _ hw => cases hk with
-    | cont hk1 hk2 => exact ⟨⟨hw p hp, hk2 p hp⟩, hk1 p hp⟩
-
-theorem Node.Valid.sorted {kvs : List (String × Node)} (h : (Node.cont kvs).Valid) : AMap.Sorted kvs := h.1.sorted
-
 mutual
 theorem equals_sound : ∀ (x y : Node), x.Valid → y.Valid → equals x y = true → x = y
   | .leaf a, .leaf b, _, _, h => by simpa [equals] using h
